@@ -67,6 +67,7 @@ PROPS["C14"] = {
         Leg("shared-readers", "c14", "^TestSharedReaders$", engine="sched", checks=(1500, 40000), shards=(2, 16), tests=["shared-readers"], replay_attempts=5),
         Leg("shared-readers-race", "c14", "^TestSharedReaders$", engine="sched", race=True, checks=(400, 8000), shards=(2, 8), tests=["shared-readers"], replay_attempts=5),
         Leg("random-no-tzdata", "c14", "^TestRandom$", wrap="no-tzdata", tags="notzdata", env={"ZONEINFO": ""}, checks=(20000, 300000), shards=(1, 8), tests=["random"]),
+        Leg("first-use", "c14", "^TestRandom$", checks=(3000, 3000), shards=(4, 16), env={"VERIF_FIRST_USE": "1"}, tests=["random"]),
         Leg("huge-386", "c14", "^TestHuge$", goarch="386", checks=(2000, 30000), shards=(1, 2), tests=["huge"]),
         Leg("grid-386", "c14", "^TestGrid$", engine="enumerate", rapid=False, goarch="386", shards=(1, 1), tests=["grid"]),
         Leg("random-386", "c14", "^TestRandom$", goarch="386", checks=(50000, 1000000), shards=(1, 8), tests=["random"]),
@@ -516,6 +517,7 @@ PROPS["C19"] = {
         Leg("report", "c19", "^TestReport$", checks=(2000, 100000), shards=(2, 16), tests=["report"]),
         Leg("long-idle", "c19", "^TestLongIdle$", engine="process", app=["proxy"], checks=(1, 2), shards=(2, 4), tests=["long-idle"], replay_attempts=2),
         Leg("hangup", "c19", "^TestHangup$", engine="process", app=["proxy"], checks=(4, 40), shards=(4, 8), tests=["hangup"], replay_attempts=3),
+        Leg("relay-no-tzdata", "c19", "^TestRelay$", engine="process", app=["proxy"], wrap="no-tzdata", tags="notzdata", env={"ZONEINFO": ""}, checks=(30, 600), shards=(2, 8), tests=["relay"], replay_attempts=3),
         Leg("two-sessions", "c19", "^TestTwoSessions$", engine="process", app=["proxy"], checks=(2, 12), shards=(2, 4), tests=["two-sessions"], replay_attempts=2),
         Leg("relay", "c19", "^TestRelay$", engine="process", app=["proxy"], checks=(40, 5000), shards=(8, 16), tests=["relay"], replay_attempts=3),
     ],
